@@ -577,6 +577,85 @@ def run_redefs(acc):
     acc.sample({"clause": "redefinition", "contexts": ["r1: foot = 10 inch", "r2: inch = 3 ua"], "probes": ["foot->ua", "mile->ua", "speedy->ua/ub"]})
 
 
+# ----------------------------------------------------------------------------- partial unwinding of mixed stacks
+
+UW_LINES = list(BASE_LINES) + [
+    "inch = 2 * ua", "foot = 12 * inch",
+    "@context n1", "    foot = 10 * inch", "@end",          # redefinition only: no rule at all
+    "@context n2", "    inch = 3 * ua", "@end",             # redefinition only
+    "@context s3", "    [A] -> [B]: value * 3 * ub / ua", "@end",
+    "@context s5", "    [A] -> [B]: value * 5 * ub / ua", "    [B] -> [C]: value * 7 * uc / ub", "@end",
+]
+UW_CTX = {"n1": {}, "n2": {}, "s3": {("A", "B"): 3}, "s5": {("A", "B"): 5, ("B", "C"): 7}}
+UW_EVENTS = [("en", c) for c in UW_CTX] + [("dis", 1), ("dis", 2)] + [("call", c) for c in UW_CTX]
+
+
+def uw_model(stack):
+    """rule factors in force for a stack (oldest first): the most recently enabled context owning a rule wins"""
+    rules = {}
+    for c in stack:
+        rules.update(UW_CTX[c])
+    foot = (10 if "n1" in stack else 12) * (3 if "n2" in stack else 2)
+    want = {"ua->ub": rules.get(("A", "B")), "ub->uc": rules.get(("B", "C")), "foot->ua": foot}
+    want["ua->uc"] = rules[("A", "B")] * rules[("B", "C")] if ("A", "B") in rules and ("B", "C") in rules else None
+    return want
+
+
+def uw_probe(ureg, *ctx):
+    Q = ureg.Quantity
+    out = {}
+    for name, (a, b) in {"ua->ub": ("ua", "ub"), "ub->uc": ("ub", "uc"), "ua->uc": ("ua", "uc"), "foot->ua": ("foot", "ua")}.items():
+        o = call(lambda: Q(1, a).to(b, *ctx).magnitude)
+        out[name] = o[1] if o[0] == "ok" else (None if o[1] == "DimensionalityError" else o[1])
+    return out
+
+
+def run_unwind(acc, depth, first):
+    """every history of enable / disable(1|2) / per-call activation over two rule-less (redefinition only) and two rule-carrying
+    contexts, replayed on a fresh registry: after every event, rules and redefinitions in force are those of the model stack"""
+    def rec(hist, stack_hist):
+        ureg = regs.tiny(UW_LINES, non_int_type="Fraction")
+        stack, ok = [], True
+        for i, ev in enumerate(hist):
+            if ev[0] == "en":
+                if ev[1] in stack:
+                    return False
+                ureg.enable_contexts(ev[1])
+                stack.append(ev[1])
+            elif ev[0] == "dis":
+                if ev[1] > len(stack):
+                    return False
+                ureg.disable_contexts(ev[1])
+                del stack[len(stack) - ev[1]:]
+            else:
+                if ev[1] in stack:
+                    return False
+                if i == len(hist) - 1:
+                    acc.ev()
+                    got, want = uw_probe(ureg, ev[1]), uw_model(stack + [ev[1]])
+                    bad = {k: (str(want[k]), str(got[k])) for k in want if got[k] != want[k]}
+                    if bad:
+                        acc.violation(["context-stack", "partial-unwind", "per-call-context-on-a-stack-does-not-follow-the-model", ev[1][0] + "-on-" + "".join(c[0] for c in stack)], {"history": [list(e) for e in hist]}, {k: v[0] for k, v in bad.items()}, {k: v[1] for k, v in bad.items()})
+        acc.ev()
+        acc.nt(("unwind", hist))
+        got, want = uw_probe(ureg), uw_model(stack)
+        bad = {k: (str(want[k]), str(got[k])) for k in want if got[k] != want[k]}
+        if bad:
+            kind = "".join(e[0][0] + (e[1][0] if isinstance(e[1], str) else str(e[1])) for e in hist)
+            acc.violation(["context-stack", "partial-unwind", "rules-or-redefinitions-in-force-differ-from-the-enabled-stack", "ruleless-involved" if any(e[1] in ("n1", "n2") for e in hist) else "rules-only"], {"history": [list(e) for e in hist], "kind": kind, "stack": list(stack)}, {k: v[0] for k, v in bad.items()}, {k: v[1] for k, v in bad.items()})
+        return True
+
+    def walk(hist):
+        if not rec(hist, None):
+            return
+        if len(hist) < depth:
+            for ev in UW_EVENTS:
+                walk(hist + (ev,))
+    walk((tuple(first),))
+    acc.outcome("unwind")
+    acc.sample({"clause": "partial-unwind", "history": [["en", "s3"], ["en", "n1"], ["dis", 1]], "expected": {"ua->ub": 3, "foot->ua": 24}})
+
+
 # ----------------------------------------------------------------------------- bundled contexts
 
 
@@ -682,6 +761,9 @@ def shards(tier, seed):
         for b in range(8):
             out.append(("stacks", 3, 1, b, 8))
     out += [("params",), ("redefs",), ("bundled",), ("mutation",)]
+    for ev in UW_EVENTS:
+        if ev[0] != "dis":
+            out.append(("unwind", 4 if tier == "quick" else 5, list(ev)))
     for ev in ph_events():
         out.append(("param-hist", 3 if tier == "quick" else 4, list(ev)))
     return out
@@ -697,6 +779,8 @@ def run_shard(acc, shard, tier, seed):
         run_params(acc)
     elif k == "param-hist":
         run_param_histories(acc, shard[1], tuple(shard[2]))
+    elif k == "unwind":
+        run_unwind(acc, shard[1], tuple(shard[2]))
     elif k == "mutation":
         run_mutation(acc)
     elif k == "redefs":
@@ -713,6 +797,9 @@ def replay(rec):
     if site[0] == "single-context":
         for b in range(16):
             run_single(acc, b, 16, rec.get("tier", "quick"))
+    elif site[0] == "context-stack" and site[1] == "partial-unwind":
+        h = rec["case"]["history"]
+        run_unwind(acc, len(h), tuple(h[0]))
     elif site[0] == "context-stack":
         for b in range(16):
             run_stacks(acc, 2, 2, b, 16)
